@@ -52,6 +52,10 @@ def _mk_fn_behaviour(fid, ns):
         b = ns["beh"]
         return lambda kw, _bb=b: _b.apply(_bb, kw)
 
+    if ns.get("none_out") and n_out == 1 and not gen:
+        # the node's result IS the value None (a lookup that found nothing): a value like any other
+        return lambda kw: None
+
     if ns.get("uncopyable") and n_out == 1 and not gen:
         # the output is a value that cannot be copied or pickled; equal to the ordinary term in every other respect
         return lambda kw, _fid=fid: rt.UTerm(rt.term(_fid, kw, 1, False))
